@@ -34,6 +34,8 @@ var intPool = []string{
 }
 var badNumPool = []string{
 	"9007199254740992", "-9007199254740992", "9007199254740993", "18446744073709551616", "12345678901234567890", "99999999999999999999999",
+	// literals that an accumulate-without-overflow-check integer parser reduces modulo 2^64 into the safe range
+	"18446744073709551617", "18446744073709551615", "-18446744073709551616", "36893488147419103232", "18455751272964292607", "340282366920938463463374607431768211456",
 	"-0", "0.0", "-0.0", "0.5", "-0.5", "1.0", "1.5", "1e0", "1E0", "1e5", "1E5", "1e-5", "1e-05", "1e+5", "0e5", "0E0", "-0e0", "-0E-0",
 	"1.5e3", "2.0E-2", "100e-2", "1e308", "1e309", "-1e-400", "0.1e1", "9007199254740991.0", "9.007199254740991e15",
 }
